@@ -37,6 +37,7 @@ type Config struct {
 	MaxAlloc   int               `json:"max_alloc"`
 	LazyK      int               `json:"lazy_k"`
 	MaxSwitches int              `json:"max_switches"`
+	PreemptSiteK int             `json:"preempt_site_k"` // >0: a lock-acquisition site (call string of depth 2 + set of held lock sites) offers a preemption only at its first K executions per goroutine
 	FPContract bool              `json:"fp_contract"`
 	ConcreteClock bool           `json:"concrete_clock"`
 	NoMutexPreempt bool          `json:"no_mutex_preempt"` // context switches only at channel ops, go, Yield and blocking
@@ -74,6 +75,9 @@ func (c *Config) withTier(tier string) *Config {
 		}
 		if t.MaxSwitches != 0 {
 			out.MaxSwitches = t.MaxSwitches
+		}
+		if t.PreemptSiteK != 0 {
+			out.PreemptSiteK = t.PreemptSiteK
 		}
 		if t.TimeoutMS != 0 {
 			out.TimeoutMS = t.TimeoutMS
